@@ -10,7 +10,7 @@ U5 a pause never splits a timestep: every process sleeps in whole steps
 import ast
 
 from ..index import AnalysisError, is_spawn, walk_no_nested
-from ..norm import Canon, Lit, Logic, effects_of_event
+from ..norm import Canon, Lit, Logic, effects_of_event, effects_along
 from ..paths import Frame, cached_paths
 from ..simpy_model import ACTOR_ATTRS, registration_order, witness
 from .c13 import consume_once
@@ -91,7 +91,7 @@ def check(repo, res, tier):
     for p in cached_paths(start):
         if p.exit == 'raise':
             continue
-        sets = [i for i, e in enumerate(p.events) for ef in effects_of_event(canon, e)
+        sets = [i for i, (e, _efs) in enumerate(effects_along(canon, p.events)) for ef in _efs
                 if ef.loc == FLAG and ef.arg == 'True']
         if not sets:
             res.bad('C11.U1', start, start.node, 'running flag not set by start',
